@@ -409,3 +409,43 @@ contract("token.SmilesToken.generate",
          modifies=["MolGen._mol@prefix", "MolGen.graph@prefix", "list@prefix.bond_descriptors",
                    "ghost.bonds", "ghost.bond_a", "ghost.bond_b", "ghost.bond_t", "ghost.at_site_choices",
                    "ghost.choices", "ghost.last_p", "ghost.last_n", "ghost.last_pick", "ghost.last_rng", "ghost.last_cand", "ghost.last_norm"])
+
+
+# ---- validation at the end of parsing a stochastic object (C15: a transition list whose length differs from the number of descriptors is rejected) ---------------
+specfn('''
+def bad_list(s, b):
+    return not is_none(b.transitions) and len(b.transitions) != len(s.bond_descriptors)
+''')
+_VAL_RAISES = ("exists(0, len(self.bond_descriptors), lambda k: bad_list(self, self.bond_descriptors[k])) or bad_list(self, self.left_terminal) "
+               "or bad_list(self, self.right_terminal) or len(self.bond_descriptors) != len(self.end_bonds) + len(self.repeat_bonds)")
+_VAL = {
+    "forall(lambda k: implies(0 <= k and k < len(self.bond_descriptors), not bad_list(self, self.bond_descriptors[k])))": "every-transition-list-has-one-entry-per-descriptor",
+    "not bad_list(self, self.left_terminal) and not bad_list(self, self.right_terminal)": "terminal-transition-lists-too",
+    "len(self.bond_descriptors) == len(self.end_bonds) + len(self.repeat_bonds)": "descriptors-are-those-of-repeat-units-and-end-groups",
+}
+contract("stochastic.Stochastic._validate", props=["C15", "C02"],
+         params=dict(self=Ref("Stochastic")), returns=None,
+         raises={"RuntimeError": _VAL_RAISES}, ensures=list(_VAL), labels=_VAL,
+         modifies=[], allocates=True,
+         loops={1: dict(anchor="bd in self.bond_descriptors + [self.left_terminal, self.right_terminal]", modifies=[], allocates=False,
+                        inv=["forall(lambda k: implies(0 <= k and k < _i1, not bad_list(self, _it1[k])))",
+                             "len(_it1) == len(self.bond_descriptors) + 2 and _it1[len(self.bond_descriptors)] is self.left_terminal and _it1[len(self.bond_descriptors) + 1] is self.right_terminal",
+                             "forall(lambda k: implies(0 <= k and k < len(self.bond_descriptors), _it1[k] is self.bond_descriptors[k]))"])})
+
+
+# ---- residues of a stochastic object: its repeat-unit tokens in written order, then its end-group tokens (C05 / C17: residue numbering follows this order) ---------
+_RES = {
+    "fresh(result) and len(result) == len(self.repeat_tokens) + len(self.end_tokens)": "one-residue-per-token",
+    "forall(lambda k: implies(0 <= k and k < len(self.repeat_tokens), result[k] is self.repeat_tokens[k]))": "repeat-units-first-in-written-order",
+    "forall(lambda k: implies(0 <= k and k < len(self.end_tokens), result[len(self.repeat_tokens) + k] is self.end_tokens[k]))": "then-the-end-groups-in-written-order",
+}
+contract("stochastic.Stochastic.residues", is_property=True, props=["C05"],
+         params=dict(self=Ref("Stochastic")), returns=List(Ref("SmilesToken")),
+         ensures=list(_RES), labels=_RES, modifies=[], allocates=True,
+         loops={1: dict(anchor="token in self.repeat_tokens", locals={"residues": List(Ref("SmilesToken"))}, stable=["residues"], modifies=["list@residues"],
+                        inv=["fresh(residues) and len(residues) == _i1",
+                             "forall(lambda k: implies(0 <= k and k < _i1, residues[k] is self.repeat_tokens[k]))"]),
+                2: dict(anchor="token in self.end_tokens", locals={"residues": List(Ref("SmilesToken"))}, stable=["residues"], modifies=["list@residues"],
+                        inv=["fresh(residues) and len(residues) == len(self.repeat_tokens) + _i2",
+                             "forall(lambda k: implies(0 <= k and k < len(self.repeat_tokens), residues[k] is self.repeat_tokens[k]))",
+                             "forall(lambda k: implies(0 <= k and k < _i2, residues[len(self.repeat_tokens) + k] is self.end_tokens[k]))"])})
